@@ -88,10 +88,16 @@ class argument_interpreter:
                 )
                 % (self.argument_description, arg)
             )
+        # a path is a target once, also when a .multiple parameter occurs several times in the master
+        target_locators = []
+        seen_paths = set()
+        for object_locator in self.master_phil.all_definitions():
+            if object_locator.path not in seen_paths:
+                seen_paths.add(object_locator.path)
+                target_locators.append(object_locator)
         if self.target_paths is None:
             self.target_paths = [
-                object_locator.path
-                for object_locator in self.master_phil.all_definitions()
+                object_locator.path for object_locator in target_locators
             ]
 
         def recursive_expert_level(phil_obj):
@@ -114,7 +120,7 @@ class argument_interpreter:
 
         expert_level = [
             recursive_expert_level(object_locator)
-            for object_locator in self.master_phil.all_definitions()
+            for object_locator in target_locators
         ]
 
         source_definitions = params.all_definitions()
